@@ -173,6 +173,26 @@ fn std_seeds(tier: &Tier) -> Vec<Vec<Act>> {
     }
 }
 
+/// like cfg_with, with initial 10% / maintenance 6.25% / liquidation fee 2.5%: leaves room between
+/// the liquidation fee and maintenance, where partial liquidations happen
+fn cfg_liq(cw20: bool, fees: bool, plr: u128) -> Cfg {
+    Cfg {
+        imr: 100_000,
+        mmr: 62_500,
+        liq_fee: 25_000,
+        ..cfg_with(cw20, fees, plr)
+    }
+}
+
+fn with_funding_due(seed: Vec<Act>) -> Vec<Act> {
+    seed.into_iter()
+        .map(|a| match a {
+            Act::Blk { blocks, secs: 1200 } => Act::Blk { blocks, secs: 3900 },
+            x => x,
+        })
+        .collect()
+}
+
 fn cfg_with(cw20: bool, fees: bool, plr: u128) -> Cfg {
     Cfg {
         cw20,
@@ -204,12 +224,23 @@ pub fn run_c02(tier: Tier) -> i32 {
         Tier::Quick => {
             exps.push(Exp::new("base", cfg_with(true, true, 250_000), alpha.clone(), std_seeds(&tier), 3));
             exps.push(Exp::new("base", cfg_with(false, false, 0), alpha.clone(), std_seeds(&tier), 3));
+            exps.push(Exp::new("partial-liquidation band", cfg_liq(true, false, 250_000), liq_alpha(false), liq_seeds(), 3));
+            let mut z = cfg_liq(false, false, 250_000);
+            z.liq_fee = 0;
+            exps.push(Exp::new("zero liquidation fee", z, liq_alpha(false), liq_seeds(), 3));
         }
         Tier::Thorough => {
             for cw20 in [true, false] {
                 for fees in [false, true] {
                     for plr in [0, 250_000, D] {
                         exps.push(Exp::new("base", cfg_with(cw20, fees, plr), alpha.clone(), std_seeds(&tier), 4));
+                    }
+                }
+                for lf in [0, 25_000] {
+                    for plr in [250_000, D] {
+                        let mut z = cfg_liq(cw20, true, plr);
+                        z.liq_fee = lf;
+                        exps.push(Exp::new("partial-liquidation band", z, liq_alpha(false), liq_seeds(), 4));
                     }
                 }
             }
@@ -253,12 +284,15 @@ pub fn run_c03(tier: Tier) -> i32 {
         Tier::Quick => {
             exps.push(Exp::new("base", cfg_with(true, true, 0), alpha.clone(), std_seeds(&tier), 3));
             exps.push(Exp::new("base", cfg_with(false, true, 250_000), alpha.clone(), std_seeds(&tier), 3));
+            exps.push(Exp::new("liquidation band", cfg_liq(true, true, 250_000), liq_alpha(false), liq_seeds(), 3));
+            exps.push(Exp::new("liquidation band", cfg_liq(false, false, 0), liq_alpha(false), liq_seeds(), 3));
         }
         Tier::Thorough => {
             for cw20 in [true, false] {
                 for fees in [false, true] {
                     for plr in [0, 250_000] {
                         exps.push(Exp::new("base", cfg_with(cw20, fees, plr), alpha.clone(), std_seeds(&tier), 4));
+                        exps.push(Exp::new("liquidation band", cfg_liq(cw20, fees, plr), liq_alpha(false), liq_seeds(), 4));
                     }
                 }
             }
@@ -292,8 +326,9 @@ pub fn run_c10(tier: Tier) -> i32 {
         Act::Open { t: "alice".into(), v: 1, buy: false, margin: SIZE_M.0, lev: SIZE_M.1, limit: 0 },
         Act::open("carol", true, SIZE_S.0, SIZE_S.1),
         Act::blk(15),
-        Act::open("bob", false, SIZE_L.0, SIZE_L.1),
+        Act::open("bob", false, 40 * D, 10 * D),
         Act::blk(1200),
+        px_at_spot(),
     ];
     let mut c = cfg_with(true, true, 250_000);
     c.n_vamms = 2;
@@ -316,8 +351,9 @@ pub fn run_c10(tier: Tier) -> i32 {
 // ------------------------------------------------------------------------------------------ C04
 fn step_c04(m: &EngModel, w: &mut World, s: &EngSt, a: &Act, out: &mut StepOut) -> Option<EngSt> {
     let so = m.observe_step(w, s, a, out);
-    oracle_c04(w, &so, out);
-    next(&so)
+    let cps = cp_from_mon(&s.mon);
+    oracle_c04(w, &so, out, &cps);
+    Some(EngSt { snap: so.post_snap.clone(), mon: cp_to_mon(&cp_update(&cps, &so)) })
 }
 
 fn seed_two_fundings() -> Vec<Act> {
@@ -395,6 +431,13 @@ fn alpha_c05(w: &mut World, s: &EngSt) -> Vec<Act> {
                 if fc > 0 {
                     amts.push(fc as u128);
                     amts.push(fc as u128 + 1);
+                    amts.push(fc as u128 + 2);
+                    // beyond free collateral by the funding the position is owed / owes
+                    let owed = owed_of(p, vo.cum).unsigned_abs();
+                    if owed > 2 {
+                        amts.push(fc as u128 + owed / 2);
+                        amts.push(fc as u128 + owed);
+                    }
                 }
             }
             amts.sort();
@@ -472,9 +515,9 @@ fn liq_alpha(rel: bool) -> Vec<Act> {
     al.withdraw = Some(3 * D);
     if rel {
         // oracle on either side of the 10% spread limit
-        al.rel_prices = vec![(10, 11), (1000, 1101), (10, 9), (1000, 899)];
+        al.rel_prices = vec![(1, 1), (10, 11), (1000, 1101), (10, 9), (1000, 899)];
     } else {
-        al.rel_prices = vec![(10, 11), (10, 9)];
+        al.rel_prices = vec![(1, 1), (10, 11)];
     }
     al.acts()
 }
@@ -484,20 +527,46 @@ fn liq_seeds() -> Vec<Vec<Act>> {
         vec![],
         seed_liquidatable(),
         seed_liquidatable_mirror(),
-        // moderately under water: partial liquidation territory
-        vec![
-            Act::open("alice", true, 25 * D, 10 * D),
-            Act::blk(15),
-            Act::open("bob", false, 35 * D, 1 * D),
-            Act::blk(1200),
-        ],
-        vec![
-            Act::open("alice", false, 20 * D, 10 * D),
-            Act::blk(15),
-            Act::open("bob", true, 45 * D, 1 * D),
-            Act::blk(1200),
-        ],
+        seed_slightly_under(),
+        seed_slightly_under_mirror(),
     ]
+}
+
+/// liq_alpha plus, for every trader holding a position, oracle prices at which the oracle-priced
+/// margin ratio (funding owed included) sits just below / just above maintenance
+fn alpha_c06(w: &mut World, s: &EngSt) -> Vec<Act> {
+    w.restore(&s.snap);
+    let mut acts = liq_alpha(true);
+    let mmr = w.cfg.mmr as i128;
+    let vo = observe(w, &[]).vamms.remove(0);
+    for t in T2 {
+        let to = observe_trader(w, 0, t);
+        if let Some(p) = &to.pos {
+            if p.size.is_zero() {
+                continue;
+            }
+            let (m, n, sz) = (p.margin.u128() as i128, p.notional.u128() as i128, p.size.value.u128() as i128);
+            let owed = owed_of(p, vo.cum);
+            for dr in [-2000i128, -300, 300, 2000] {
+                let r = mmr + dr;
+                // position value N at which the oracle ratio equals r
+                let nn = if size_of(p) > 0 {
+                    let num = (n + owed - m) * DI;
+                    if num <= 0 || DI - r <= 0 { continue; }
+                    num / (DI - r)
+                } else {
+                    let num = (m + n - owed) * DI;
+                    if num <= 0 { continue; }
+                    num / (r + DI)
+                };
+                let price = nn * DI / sz;
+                if price > 0 {
+                    acts.push(Act::Px { price: price as u128 });
+                }
+            }
+        }
+    }
+    acts
 }
 
 pub fn run_c06(tier: Tier) -> i32 {
@@ -512,22 +581,44 @@ pub fn run_c06(tier: Tier) -> i32 {
         c
     };
     let mut exps = vec![];
-    let alpha = liq_alpha(true);
+    let mut seeds = liq_seeds();
+    // under-margined positions with funding pending in either direction
+    // alice is owed funding (long, oracle above the vAMM TWAP), then the price falls ~15%
+    seeds.push(vec![
+        Act::open("alice", true, 25 * D, 10 * D),
+        Act::Px { price: 18 * D },
+        Act::blk(3900),
+        Act::fund(),
+        Act::open("carol", false, 50 * D, 2 * D),
+        Act::blk(1200),
+    ]);
+    // alice is owed funding (short, oracle below the vAMM TWAP), then the price rises ~15%
+    seeds.push(vec![
+        Act::open("alice", false, 20 * D, 10 * D),
+        Act::Px { price: 6 * D },
+        Act::blk(3900),
+        Act::fund(),
+        Act::open("carol", true, 35 * D, 2 * D),
+        Act::blk(1200),
+    ]);
+    let mut push = |c: Cfg, d: usize| {
+        exps.push(Exp { name: "liq".into(), cfg: c, traders: T3.to_vec(), seeds: seeds.clone(), alpha: Alpha::Dyn(alpha_c06), depth: d, init_mon: Value::Null });
+    };
     match tier {
         Tier::Quick => {
-            exps.push(Exp::new("liq", mk(true, 62_500, 25_000, 250_000), alpha.clone(), liq_seeds(), 3));
-            exps.push(Exp::new("liq", mk(false, 50_000, 50_000, 0), alpha.clone(), liq_seeds(), 3));
+            push(mk(true, 62_500, 25_000, 250_000), 3);
+            push(mk(false, 50_000, 50_000, 0), 3);
         }
         Tier::Thorough => {
             for mmr in [50_000, 62_500] {
                 for lf in [0, 25_000, 50_000] {
                     for plr in [0, 250_000, D] {
-                        exps.push(Exp::new("liq", mk(true, mmr, lf, plr), alpha.clone(), liq_seeds(), 3));
+                        push(mk(true, mmr, lf, plr), 3);
                     }
                 }
             }
-            exps.push(Exp::new("liq", mk(false, 62_500, 25_000, 250_000), alpha.clone(), liq_seeds(), 4));
-            exps.push(Exp::new("liq", mk(true, 62_500, 25_000, 250_000), alpha.clone(), liq_seeds(), 4));
+            push(mk(false, 62_500, 25_000, 250_000), 4);
+            push(mk(true, 62_500, 25_000, 250_000), 4);
         }
     }
     run_exps(&mut run, step_c06, exps, |_| {});
@@ -663,8 +754,9 @@ pub fn run_c08(tier: Tier) -> i32 {
 // ------------------------------------------------------------------------------------------ C11
 fn step_c11(m: &EngModel, w: &mut World, s: &EngSt, a: &Act, out: &mut StepOut) -> Option<EngSt> {
     let so = m.observe_step(w, s, a, out);
-    oracle_c11(w, &so, out);
-    next(&so)
+    let cps = cp_from_mon(&s.mon);
+    oracle_c11(w, &so, out, &cps);
+    Some(EngSt { snap: so.post_snap.clone(), mon: cp_to_mon(&cp_update(&cps, &so)) })
 }
 
 pub fn run_c11(tier: Tier) -> i32 {
@@ -810,21 +902,22 @@ pub fn run_c16(tier: Tier) -> i32 {
     al.sizes = vec![SIZE_M];
     al.deposit = None;
     al.withdraw = None;
-    al.funding = false;
+    al.funding = true;
     al.prices = vec![];
     al.blocks = vec![15];
     let alpha = al.acts();
     let init = json!({"h": 0, "u": [], "lq": false, "lt": []});
-    let seeds = vec![seed_liquidatable(), seed_liquidatable_mirror(), vec![
+    let seeds = vec![with_funding_due(seed_liquidatable()), with_funding_due(seed_liquidatable_mirror()), vec![
         Act::open("alice", true, 25 * D, 10 * D),
         Act::open("carol", true, 25 * D, 10 * D),
         Act::blk(15),
-        Act::open("bob", false, 35 * D, 1 * D),
-        Act::blk(1200),
+        Act::open("bob", false, 50 * D, 1 * D),
+        Act::blk(3900),
+        px_at_spot(),
     ]];
     let mut exps = vec![];
     let mut push = |plr: u128, d: usize| {
-        let mut e = Exp::new("restriction mode", cfg_with(true, false, plr), alpha.clone(), seeds.clone(), d);
+        let mut e = Exp::new("restriction mode", if plr == 0 { cfg_with(true, false, plr) } else { cfg_liq(true, false, plr) }, alpha.clone(), seeds.clone(), d);
         e.init_mon = init.clone();
         exps.push(e);
     };
